@@ -1,5 +1,10 @@
 package main
 
-import "verif.local/harness/core"
+import (
+	"verif.local/harness/core"
+	"verif.local/harness/props"
+)
 
-func extraProps() []core.Property { return nil }
+func extraProps() []core.Property {
+	return []core.Property{props.C01{}}
+}
